@@ -135,7 +135,12 @@ func main() {
 			if per < 5*time.Second {
 				per = 5 * time.Second
 			}
-			s, err := e.Explore(h, sym.ExploreOpts{Workers: *workers, TimeoutMS: tmo, Portfolio: true, Deadline: time.Now().Add(per), MaxViolPer: 2, Seed: seed})
+			opts := sym.ExploreOpts{Workers: *workers, TimeoutMS: tmo, Portfolio: true, Deadline: time.Now().Add(per), MaxViolPer: 2, Seed: seed}
+			if old := sums[h]; old != nil {
+				// second pass: continue from the frontier the first pass left
+				opts.Resume = old.Pending
+			}
+			s, err := e.Explore(h, opts)
 			if err != nil {
 				notes = append(notes, h+": "+err.Error())
 				continue
@@ -144,15 +149,8 @@ func main() {
 				again = append(again, h)
 			}
 			if old := sums[h]; old != nil {
-				// counterexamples are recorded once per label (saturation), so
-				// those of the first pass must be carried over
-				if old.Paths > s.Paths {
-					old.Violations = append(old.Violations, s.Violations...)
-					old.Fallbacks = append(old.Fallbacks, s.Fallbacks...)
-					continue // keep the larger exploration
-				}
-				s.Violations = append(s.Violations, old.Violations...)
-				s.Fallbacks = append(s.Fallbacks, old.Fallbacks...)
+				old.Merge(s)
+				s = old
 			}
 			sums[h] = s
 			fmt.Printf("harness %s: paths=%d ends=%v asserts=%d queries=%d (sat %d unsat %d unknown %d) solver=%.1fs wall=%.1fs truncated=%v\n",
